@@ -3,6 +3,17 @@
 // Translator: re-emits Lean definitions from tink-go's current source for straight-line integer code
 // and tables (ML-DSA scalar arithmetic, POLYVAL), using go/parser + go/types. It refuses constructs it
 // does not know instead of guessing. Run with cwd=/repo:  translator -pkg internal/signature/mldsa -out f.lean
+//
+// The output is alpha-normalised: it does not depend on the NAMES of Go locals and parameters, on
+// comments, blank lines, panic texts, nor on the order of independent assignments.
+//   - parameters (receiver first) are named by position: a0, a1, ...
+//   - every assignment to a local (SSA version) becomes an auxiliary definition `fn.v<k> a0 a1 ...`;
+//     k is the position in the CANONICAL order of the function's definitions: a topological order of
+//     the data-flow graph in which, among the definitions whose operands are already numbered, the one
+//     with the smallest text (type + expression over canonical names) comes first. Definitions are
+//     pure and total, so neither hoisting them out of branches nor reordering changes any value.
+//   - function, constant, struct-field and table names are structural and stay.
+//   - a comment before every function maps canonical names to the Go names and source lines.
 package main
 
 import (
@@ -16,9 +27,21 @@ import (
 	"go/types"
 	"os"
 	"path/filepath"
+	"regexp"
 	"sort"
+	"strconv"
 	"strings"
 )
+
+// ldef is one auxiliary definition (one SSA version of a Go local, or a tuple temporary).
+type ldef struct {
+	goName string // Go local name ("" for the temporary holding a multi-value call result)
+	legacy string // name under the former naming scheme (Go name, _2, _3 ... for later versions); -renames only
+	pos    token.Pos
+	ty     string
+	val    string // Lean expression; other auxiliary definitions appear as placeholders \x01<id>\x02
+	canon  int    // canonical index, 1-based (0 = not yet numbered)
+}
 
 type tr struct {
 	fset  *token.FileSet
@@ -27,29 +50,95 @@ type tr struct {
 	funcs map[string]bool // names of functions being translated (callable)
 	errs  []string
 	ns    string
-	// per-function state: every local becomes an auxiliary definition `fn.local params`
-	curFn   string
-	binders string            // "(a : Nat) (b : Nat)"
-	args    string            // "a b"
-	env     map[string]string // Go local -> Lean expression
-	count   map[string]int
-	aux     []string
+	// per-function state: every assignment to a local becomes an auxiliary definition `fn.v<k> params`
+	curFn       string
+	binders     string                  // "(a0 : Nat) (a1 : Nat)"
+	args        string                  // "a0 a1"
+	env         map[types.Object]string // Go local/parameter object -> Lean expression
+	legacyCount map[string]int
+	defs        []*ldef
+	renames     []string // "old new" lines (former name -> canonical name), for the one-off proof migration
 }
 
-// define emits an auxiliary definition for a local variable and returns the expression naming it.
-func (t *tr) define(name string, ty string, value string) {
-	t.count[name]++
-	ln := name
-	if t.count[name] > 1 {
-		ln = fmt.Sprintf("%s_%d", name, t.count[name])
+var phRe = regexp.MustCompile("\x01([0-9]+)\x02")
+
+func ph(id int) string { return "\x01" + strconv.Itoa(id) + "\x02" }
+
+// objOf: the object an identifier defines or refers to (nil for the blank identifier)
+func (t *tr) objOf(id *ast.Ident) types.Object {
+	if o := t.info.Defs[id]; o != nil {
+		return o
 	}
-	full := t.curFn + "." + ln
-	t.aux = append(t.aux, fmt.Sprintf("def %s %s : %s :=\n  %s\n", full, t.binders, ty, value))
-	if t.args == "" {
-		t.env[name] = full
-	} else {
-		t.env[name] = "(" + full + " " + t.args + ")"
+	return t.info.Uses[id]
+}
+
+// define records an auxiliary definition for a new version of a local variable; later uses of obj name it.
+func (t *tr) define(obj types.Object, goName string, pos token.Pos, ty string, value string) string {
+	lg := goName
+	if lg == "" {
+		lg = "tup"
 	}
+	t.legacyCount[lg]++
+	if t.legacyCount[lg] > 1 {
+		lg = fmt.Sprintf("%s_%d", lg, t.legacyCount[lg])
+	}
+	id := len(t.defs)
+	t.defs = append(t.defs, &ldef{goName: goName, legacy: lg, pos: pos, ty: ty, val: value})
+	ref := ph(id)
+	if t.args != "" {
+		ref = "(" + ph(id) + " " + t.args + ")"
+	}
+	if obj != nil {
+		t.env[obj] = ref
+	}
+	return ref
+}
+
+// canonicalise numbers the definitions of the current function (see the package comment) and returns
+// a function replacing the placeholders by canonical names.
+func (t *tr) canonicalise() func(string) string {
+	n := len(t.defs)
+	deps := make([][]int, n)
+	for i, d := range t.defs {
+		for _, m := range phRe.FindAllStringSubmatch(d.val, -1) {
+			k, _ := strconv.Atoi(m[1])
+			deps[i] = append(deps[i], k)
+		}
+	}
+	subst := func(s string) string {
+		return phRe.ReplaceAllStringFunc(s, func(m string) string {
+			k, _ := strconv.Atoi(m[1 : len(m)-1])
+			return fmt.Sprintf("%s.v%d", t.curFn, t.defs[k].canon)
+		})
+	}
+	for next := 1; next <= n; next++ {
+		best, bestKey := -1, ""
+		for i, d := range t.defs {
+			if d.canon != 0 {
+				continue
+			}
+			ready := true
+			for _, k := range deps[i] {
+				if t.defs[k].canon == 0 {
+					ready = false
+					break
+				}
+			}
+			if !ready {
+				continue
+			}
+			key := d.ty + "\x00" + subst(d.val)
+			if best < 0 || key < bestKey {
+				best, bestKey = i, key
+			}
+		}
+		if best < 0 { // cannot happen: a definition only mentions earlier ones
+			t.errs = append(t.errs, "cyclic definitions in "+t.curFn)
+			break
+		}
+		t.defs[best].canon = next
+	}
+	return subst
 }
 
 func (t *tr) fail(n ast.Node, format string, a ...any) string {
